@@ -1,0 +1,41 @@
+//go:build verif
+// +build verif
+
+package geometry
+
+import "sync/atomic"
+
+// Verification hooks, compiled only with the "verif" build tag. They report
+// which return site of the ring/segment and line/line case analyses decided
+// a call. With
+// no sink installed a hook costs one atomic load and changes nothing.
+
+// VerifEvent describes one decided leaf call.
+type VerifEvent struct {
+	Fn          string // "RCS" ringContainsSegment, "RIS" ringIntersectsSegment, "LCL" Line.ContainsLine
+	Site        string // return site
+	Ring        Series // RCS, RIS
+	Seg         Segment
+	Line, Other *Line // LCL
+	AllowOnEdge bool
+	Result      bool
+}
+
+type verifSinkBox struct{ f func(*VerifEvent) }
+
+var verifSink atomic.Value // verifSinkBox
+
+// VerifSetSink installs (or, with nil, removes) the event sink.
+func VerifSetSink(f func(*VerifEvent)) { verifSink.Store(verifSinkBox{f}) }
+
+func verifTrace(fn, site string, ring Ring, seg Segment, allowOnEdge, result bool) {
+	if b, ok := verifSink.Load().(verifSinkBox); ok && b.f != nil {
+		b.f(&VerifEvent{Fn: fn, Site: site, Ring: ring, Seg: seg, AllowOnEdge: allowOnEdge, Result: result})
+	}
+}
+
+func verifTraceLine(site string, line, other *Line, result bool) {
+	if b, ok := verifSink.Load().(verifSinkBox); ok && b.f != nil {
+		b.f(&VerifEvent{Fn: "LCL", Site: site, Line: line, Other: other, Result: result})
+	}
+}
